@@ -20,8 +20,9 @@
   * SO3: coefficients UP TO A COMMON SIGN (`so3_composition_round_sign`; the canonical-sign decision may
     differ when `q_w ≈ 0`) and sign-free through the rotation matrix;
   * headline corollaries in the property's own terms for `u ≤ 2⁻⁵³` (1e-12) and `u ≤ 2⁻²⁴` (1e-5).
-  NOT covered here: Galilei, SE_K_3, Bundles (same pattern, not written out), the group actions, and
-  everything about overflow/underflow/subnormals (outside the standard model) — those remain audited.
+  Continued in SmoothProps/C01RoundB.lean (the group actions, Galilei, SE_K_3 for every K, associativity)
+  and SmoothProps/C01RoundC.lean (every nested Bundle, every group descriptor).  Everything about
+  overflow/underflow/subnormals is outside the standard model and remains audited.
 -/
 import SmoothProofs.RoundModel
 import SmoothProofs.C01Small
